@@ -101,7 +101,7 @@ func (dist *BinomialDistribution) SetN(n int) error {
 }
 
 func (dist *BinomialDistribution) LogPdf(r Scalar, x ConstScalar) error {
-  if v := x.GetFloat64(); v < 0.0 || math.Floor(v) != v || math.IsInf(v, 1) {
+  if v := x.GetFloat64(); v < 0.0 || math.Floor(v) != v || math.IsInf(v, 1) || v > dist.n.GetFloat64() {
     r.SetFloat64(math.Inf(-1))
     return nil
   }
@@ -120,12 +120,20 @@ func (dist *BinomialDistribution) LogPdf(r Scalar, x ConstScalar) error {
   r.Sub(dist.z, t1)
   r.Sub(r, t2)
 
-  // p^k
-  t1.Mul(dist.Theta, x)
+  // p^k (with 0 log 0 = 0 for theta = 0)
+  if x.GetFloat64() == 0.0 {
+    t1.Set(ConstFloat64(0.0))
+  } else {
+    t1.Mul(dist.Theta, x)
+  }
 
-  // (1-p)^(n-k)
-  t2.Sub(dist.n, x)
-  t2.Mul(dist.ct, t2)
+  // (1-p)^(n-k) (with 0 log 0 = 0 for theta = 1)
+  if x.GetFloat64() == dist.n.GetFloat64() {
+    t2.Set(ConstFloat64(0.0))
+  } else {
+    t2.Sub(dist.n, x)
+    t2.Mul(dist.ct, t2)
+  }
 
   // sum up results
   r.Add(r, t1)
